@@ -134,6 +134,15 @@ def step_extract(ctx):
     if rc != 0:
         ctx.tie_failures.append("extractor: " + out.strip())
         return False
+    # advisory anchor map: which source files differ (whitespace/comment-insensitive digest) from the tree the model was
+    # last reviewed against; drift is not an alarm by itself, it is recorded so that a reader knows what the tie had to absorb
+    try:
+        meta = json.load(open(os.path.join(LEAN, "HbsLms", "Generated", "meta.json")))
+        base = json.load(open(os.path.join(VERIF, "tools", "anchors_baseline.json")))
+        drift = sorted(f for f in set(meta["anchor_digests"]) | set(base) if meta["anchor_digests"].get(f) != base.get(f))
+        ctx.extra["source_files_changed_since_model_review"] = drift
+    except Exception as ex:  # noqa
+        ctx.notes.append("anchor map unavailable: %s" % ex)
     return True
 
 
